@@ -68,6 +68,7 @@ fn run_case(ctx: &Ctx, index: u64, rep: &mut Report) {
     let mut hist: Vec<String> = vec![];
     let n_ops = 5 + rng.usize(56);
     let (mut adds, mut replaces, mut deletes, mut failed, mut runs, mut lists) = (0, 0, 0, 0, 0, 0);
+    let mut colon_only = 0u64;
     let mut extremes = false;
     for _ in 0..n_ops {
         if sess.poisoned {
@@ -85,6 +86,13 @@ fn run_case(ctx: &Ctx, index: u64, rep: &mut Report) {
                     uid += 1;
                     let u = format!("u{}", uid);
                     (format!("{} \"{}\"", rng.s(&["PRINT", "print", "?", "P R I N T"]), u), Some(format!("{} \"{}\"", if rng.coin() { "PRINT" } else { "PRINT" }, u)))
+                } else if rng.chance(1, 8) {
+                    // a line that holds nothing but statement separators is still a stored line (it is not a deletion);
+                    // its canonical text is known without asking the real interpreter
+                    let k = 1 + rng.usize(3);
+                    let sep = *rng.pick(&["", " ", "  "]);
+                    colon_only += 1;
+                    (vec![":"; k].join(sep), Some(vec![":"; k].join(" ")))
                 } else if rng.chance(1, 6) {
                     // a numbered line whose whole text spells an immediate-mode command is still a program line
                     // (the symbol LIST, RUN, ...), it is stored, not executed
@@ -196,6 +204,7 @@ fn run_case(ctx: &Ctx, index: u64, rep: &mut Report) {
     rep.add("ops.delete", deletes);
     rep.add("ops.failed_edit", failed);
     rep.add("ops.run", runs);
+    rep.add("ops.colon_only_line", colon_only);
     rep.max("max_lines_stored", model.len() as u64);
     if extremes {
         rep.count("histories_with_u64_extremes");
